@@ -211,7 +211,7 @@ func init() {
 						}
 						sp.Ops = generalSketchOps(m, k, exact)
 						// zero-weight additions beyond the current extremes: nothing is absorbed
-						sp.Ops = append(sp.Ops, skAddIgnored(0, 1e3, 0), skAddIgnored(0, -1e3, 0), skMergeRefused(0))
+						sp.Ops = append(sp.Ops, skAddIgnored(0, 1e3, 0), skAddIgnored(0, -1e3, 0), skMergeRefused(0), skReweightRefused(0))
 						specs = append(specs, sp)
 					}
 				}
